@@ -498,14 +498,12 @@ def main_check(prop, module, argv):
             tie_errors.append('tabulating translator failed (fail-closed): ' + traceback.format_exc()[-1500:])
     # 2. build + assumptions + hygiene
     proof_broken = []
-    build = coq_build() if not args.no_build else BuildResult(True, '')
+    # full .vo build of this property's dependency cone (Props/<prop>.v and everything it requires, Gen tables included);
+    # setup builds the whole project, so normally nothing but regenerated Gen files and what depends on them is rebuilt
+    build = coq_build(targets=[f[:-2] + '.vo' for f in deps_of(prop)]) if not args.no_build else BuildResult(True, '')
     if not build.ok:
-        # the whole-project build broke somewhere (possibly in another property's file, or a compiler was killed):
-        # what matters for this property is whether ITS dependency cone builds
-        b2 = coq_build(targets=[f[:-2] + '.vo' for f in deps_of(prop)])
-        if not b2.ok:
-            for (f, line, name, msg) in b2.broken:
-                proof_broken.append({'file': f, 'line': line, 'statement': name, 'message': msg})
+        for (f, line, name, msg) in build.broken:
+            proof_broken.append({'file': f, 'line': line, 'statement': name, 'message': msg})
     assumptions = {}
     if not proof_broken:
         ok, assumptions, raw = print_assumptions(prop)
